@@ -83,8 +83,10 @@ def goSigPreimage (fn : String) (digest : List Nat) : Option (List Nat) :=
       if p.1 == "const" then constBytes p.2 else if p.1 == "digest" then some digest else none)).map flat
 
 /-- `abi.encodePacked(...)` of verifySig: a string literal contributes its bytes, a `bytes32` parameter its 32 bytes; the
-only parameter that may occur is the hash (second parameter) -/
+only parameter that may occur is the hash (second parameter); any other encoding function (`abi.encode` pads and adds
+offsets) is not modelled -/
 def packedBytes (V : SolVerifySig) (hash : List Nat) : Option (List Nat) :=
+  if V.packFn != "abi.encodePacked" then none else
   (allSome (V.packed.map fun
     | .lit bs => some bs
     | .var n ty => if ty == "bytes32" && (V.params.getD 1 ("", "")).2 == n then some hash else none)).map flat
